@@ -1,7 +1,7 @@
 # C12: the script interpreter implements Bitcoin script semantics. Helpers gen()/enum()/hyp()/custom() come from props.py.
 _OPS_FLOOR = {
     # every defined non-push opcode must actually be EXECUTED (reference trace) in a fraction of the cases, else the generator is degenerate
-    "op:%02x" % o: 0.001 for o in
+    "op:%02x" % o: 0.0005 for o in
     [0x4f, 0x51, 0x60, 0x61, 0x63, 0x64, 0x67, 0x68, 0x69, 0x6a, 0x6b, 0x6c, 0x6d, 0x6e, 0x6f, 0x70, 0x71, 0x72, 0x73, 0x74, 0x75, 0x76, 0x77, 0x78, 0x79, 0x7a, 0x7b, 0x7c, 0x7d,
      0x82, 0x87, 0x88, 0x8b, 0x8c, 0x8f, 0x90, 0x91, 0x92, 0x93, 0x94, 0x9a, 0x9b, 0x9c, 0x9d, 0x9e, 0x9f, 0xa0, 0xa1, 0xa2, 0xa3, 0xa4, 0xa5, 0xa6, 0xa7, 0xa8, 0xa9, 0xaa,
      0xab, 0xac, 0xad, 0xae, 0xaf, 0xb0, 0xb1, 0xb2, 0xb3, 0xb9, 0xba]
